@@ -639,3 +639,216 @@ func noInplaceRule(R string) RuleFunc {
 		}
 	}
 }
+
+// stackRule: ds.Stack keeps what was pushed.
+func stackRule(R string) RuleFunc {
+	return func(c *core.Ctx) {
+		c.Rule(R, "the generic stack under all three scanners (lexeme stack, return stack) changes its element list in two ways only: Push stores append(s.vals, v), Pop stores the list shortened by exactly one at the end (s.vals[:len-1]) after reading the last element; a method that re-allocates the list must copy every element (make with the full length + copy, or append to an empty slice). A re-allocation that copies into a zero-length slice drops the whole stack: deeply nested documents that are valid are refused once the stack has grown and shrunk")
+		c.Floor(R, 3)
+		n := 0
+		for _, d := range c.P.FuncDecls() {
+			if core.Rel(d.Pkg.PkgPath) != "internal/ds" || d.Decl.Recv == nil || d.Decl.Body == nil || !strings.Contains(core.ExprStr(d.Decl.Recv.List[0].Type), "Stack") {
+				continue
+			}
+			recv := d.Decl.Recv.List[0].Names[0].Name
+			vals := recv + ".vals"
+			fn := core.DeclName(d.Pkg, d.Decl)
+			// locals that are complete copies of the list
+			fullCopy := map[string]bool{}
+			madeLen := map[string]string{}
+			ast.Inspect(d.Decl.Body, func(nd ast.Node) bool {
+				switch x := nd.(type) {
+				case *ast.AssignStmt:
+					if len(x.Lhs) == 1 && len(x.Rhs) == 1 {
+						if call, ok := x.Rhs[0].(*ast.CallExpr); ok && core.ExprStr(call.Fun) == "make" && len(call.Args) >= 2 {
+							madeLen[core.ExprStr(x.Lhs[0])] = core.ExprStr(call.Args[1])
+						}
+					}
+				case *ast.CallExpr:
+					if core.ExprStr(x.Fun) == "copy" && len(x.Args) == 2 && core.ExprStr(x.Args[1]) == vals {
+						dst := core.ExprStr(x.Args[0])
+						if l := madeLen[dst]; l == "len("+vals+")" || l == recv+".Len()" {
+							fullCopy[dst] = true
+						}
+					}
+				}
+				return true
+			})
+			ast.Inspect(d.Decl.Body, func(nd ast.Node) bool {
+				as, ok := nd.(*ast.AssignStmt)
+				if !ok || len(as.Lhs) != 1 || core.ExprStr(as.Lhs[0]) != vals || len(as.Rhs) != 1 {
+					return true
+				}
+				n++
+				rhs := core.ExprStr(as.Rhs[0])
+				key := fn + ":" + rhs
+				pos := c.P.Pos(as.Pos())
+				okForm := ""
+				switch r := ast.Unparen(as.Rhs[0]).(type) {
+				case *ast.CallExpr:
+					if core.ExprStr(r.Fun) == "append" && len(r.Args) == 2 && core.ExprStr(r.Args[0]) == vals && !r.Ellipsis.IsValid() {
+						okForm = "push: append of one element"
+					}
+					if core.ExprStr(r.Fun) == "append" && len(r.Args) == 2 && r.Ellipsis.IsValid() && core.ExprStr(r.Args[1]) == vals {
+						if inner, ok := ast.Unparen(r.Args[0]).(*ast.CallExpr); ok && len(inner.Args) == 1 && core.ExprStr(inner.Args[0]) == "nil" {
+							okForm = "complete copy"
+						}
+					}
+				case *ast.SliceExpr:
+					if core.ExprStr(r.X) == vals && r.Low == nil && r.Max == nil && r.High != nil {
+						h := core.ExprStr(r.High)
+						if h == recv+".Len() - 1" || h == "len("+vals+") - 1" {
+							okForm = "pop: shortened by one at the end"
+						}
+					}
+				case *ast.Ident:
+					if fullCopy[r.Name] {
+						okForm = "re-allocation with a complete copy"
+					}
+				}
+				if okForm != "" {
+					c.OKd(R, key, pos, vals+" = "+rhs+" in "+fn, okForm)
+				} else {
+					c.Bad(R, key, pos, vals+" = "+rhs+" in "+fn, "the element list is replaced by something that is neither the list plus one element, the list minus its last element, nor a complete copy: elements still on the stack are lost or invented")
+				}
+				return true
+			})
+			if d.Decl.Name.Name == "Pop" {
+				// the element is read before the list is shortened
+				readFirst := false
+				if len(d.Decl.Body.List) > 0 {
+					if as, ok := d.Decl.Body.List[0].(*ast.AssignStmt); ok && len(as.Rhs) == 1 && (core.ExprStr(as.Rhs[0]) == recv+".Peek()" || strings.HasPrefix(core.ExprStr(as.Rhs[0]), vals+"[")) {
+						readFirst = true
+					}
+				}
+				c.Check(readFirst, R, fn+":read-first", c.P.Pos(d.Decl.Pos()), "Pop reads the last element before shortening the list", "Pop does not start by reading the last element")
+			}
+		}
+		if n < 2 {
+			c.Unresolved(R, core.F("stores to Stack.vals: %d found, at least 2 expected", n))
+		}
+	}
+}
+
+const depthPositive = `package positive
+type st struct{ vals []int }
+func (s *st) Len() int { return len(s.vals) }
+const maxDepth = 512
+func push(s *st) {
+	if s.Len() >= maxDepth {
+		panic("too deep")
+	}
+	s.vals = append(s.vals, 1)
+}
+func small(s *st) bool {
+	if s.Len() >= 5 {
+		return true
+	}
+	return false
+}
+`
+
+// sizeLimits finds `if <length or count> >= <constant of at least 16> { reject }`.
+func sizeLimits(pk *packages.Package, fd *ast.FuncDecl) []*ast.IfStmt {
+	var out []*ast.IfStmt
+	ast.Inspect(fd.Body, func(n ast.Node) bool {
+		ifs, ok := n.(*ast.IfStmt)
+		if !ok {
+			return true
+		}
+		limit := false
+		ast.Inspect(ifs.Cond, func(m ast.Node) bool {
+			be, ok := m.(*ast.BinaryExpr)
+			if !ok {
+				return true
+			}
+			var sizeSide, constSide ast.Expr
+			switch be.Op {
+			case token.GEQ, token.GTR:
+				sizeSide, constSide = be.X, be.Y
+			case token.LEQ, token.LSS:
+				sizeSide, constSide = be.Y, be.X
+			default:
+				return true
+			}
+			tv, ok := pk.TypesInfo.Types[constSide]
+			if !ok || tv.Value == nil {
+				return true
+			}
+			v, isInt := constantInt64(tv.Value)
+			if !isInt || v < 16 {
+				return true
+			}
+			s := core.ExprStr(sizeSide)
+			if strings.Contains(s, ".Len()") || strings.HasPrefix(s, "len(") || strings.Contains(strings.ToLower(s), "depth") || strings.Contains(strings.ToLower(s), "level") || strings.Contains(strings.ToLower(s), "nest") {
+				limit = true
+			}
+			return true
+		})
+		if !limit {
+			return true
+		}
+		rejects := false
+		ast.Inspect(ifs.Body, func(m ast.Node) bool {
+			switch x := m.(type) {
+			case *ast.CallExpr:
+				if core.ExprStr(x.Fun) == "panic" {
+					rejects = true
+				}
+			case *ast.ReturnStmt:
+				for _, r := range x.Results {
+					if tv, ok := pk.TypesInfo.Types[r]; ok && tv.Type != nil && core.IsErrorType(tv.Type) && core.ExprStr(r) != "nil" {
+						rejects = true
+					}
+				}
+			}
+			return true
+		})
+		if rejects {
+			out = append(out, ifs)
+		}
+		return true
+	})
+	return out
+}
+
+var sizeLimitTable = map[string]string{}
+
+// noLimitRule: no input is refused for its size or nesting depth.
+func noLimitRule(R string) RuleFunc {
+	return func(c *core.Ctx) {
+		c.Rule(R, "the property quantifies over every JSON text / every nesting: in the scanners, the loader, the compiler, the checker and the stack no rejection (panic or error return) is guarded by a comparison of a length, stack height or depth counter with a constant of 16 or more. Such a test is a size or nesting limit: valid inputs beyond it are refused although their shorter siblings are accepted. Expected count 0 (the matcher is exercised on a built-in example); the number parser's documented exponent limit is not a length test")
+		c.Floor(R, 2)
+		pp, err := positivePkg(depthPositive)
+		if err != nil {
+			c.Bad(R, "positive-example", "-", "built-in example", "does not type-check: "+err.Error())
+			return
+		}
+		hits := map[string]int{}
+		for _, d := range pp.Syntax[0].Decls {
+			if fd, ok := d.(*ast.FuncDecl); ok && fd.Body != nil {
+				hits[fd.Name.Name] = len(sizeLimits(pp, fd))
+			}
+		}
+		c.Check(hits["push"] == 1 && hits["small"] == 0, R, "positive-example", "-", "the matcher reports the built-in depth limit and not a small structural test", core.F("matcher broken: %v", hits))
+		n, funcs := 0, 0
+		for _, d := range c.P.FuncDecls() {
+			rel := core.Rel(d.Pkg.PkgPath)
+			if d.Decl.Body == nil || !(strings.HasPrefix(rel, "notations/jschema") || rel == "formats/json" || rel == "rules/enum" || rel == "internal/ds" || rel == "lexeme" || rel == "bytes") {
+				continue
+			}
+			funcs++
+			for _, ifs := range sizeLimits(d.Pkg, d.Decl) {
+				n++
+				fn := core.DeclName(d.Pkg, d.Decl)
+				key := fn + ":" + core.ExprStr(ifs.Cond)
+				if r, ok := sizeLimitTable[key]; ok {
+					c.Tabled(R, key, c.P.Pos(ifs.Pos()), "if "+core.ExprStr(ifs.Cond)+" { reject } in "+fn, r)
+				} else {
+					c.Bad(R, key, c.P.Pos(ifs.Pos()), "if "+core.ExprStr(ifs.Cond)+" { reject } in "+fn, "an input is refused because a length / stack height / depth exceeds a constant: texts nested or sized beyond it are rejected although they are valid")
+				}
+			}
+		}
+		c.OKd(R, "inventory", "-", core.F("%d functions scanned", funcs), core.F("%d size or depth limits", n))
+	}
+}
